@@ -69,6 +69,189 @@ const HAND: &[&str] = &[
     "{ x, .. y, z }",
 ];
 
+
+// ---- near-valid programs: declarations over a small pool of names ---------------------------------
+//
+// Token soup rarely gets past the parser and mutants of the corpus stay close to well-kinded code.
+// This generator composes type declarations (aliases that are cyclic, divergent, ill-kinded,
+// with repeated parameters, with derive attributes), value bindings with annotations that use
+// them, and expressions that project / match / apply through them; every name comes from a tiny
+// pool so that uses hit declarations by accident.
+
+const TNAMES: &[&str] = &["A", "B", "R", "T"];
+const VNAMES: &[&str] = &["x", "y", "f", "g"];
+const FNAMES: &[&str] = &["x", "y", "foo", "_0"];
+const MODULES: &[&str] = &["c09", "std.prelude", "std.types", "std.list", "std.nonexistent", "c09.x", "std.json.de", "h"];
+const DERIVES: &[&str] = &["Eq", "Show", "Serialize", "Deserialize", "Foo", "Eq, Show", "Serialize, Deserialize", ""];
+
+fn ds_type(t: &mut Tape, depth: usize) -> String {
+    let leaf = depth >= 3;
+    match t.pick(if leaf { 7 } else { 18 }) {
+        0 => "Int".into(),
+        1 => "String".into(),
+        2 | 3 => t.choose(TNAMES).to_string(),
+        4 => "a".into(),
+        5 => "_".into(),
+        6 => "()".into(),
+        7 => format!("{} -> {}", ds_type(t, depth + 1), ds_type(t, depth + 1)),
+        8 => format!("{} {}", t.choose(TNAMES), ds_atom(t, depth + 1)),
+        9 => format!("{} {} {}", t.choose(TNAMES), ds_atom(t, depth + 1), ds_atom(t, depth + 1)),
+        10 => {
+            let n = t.pick(3);
+            let fs: Vec<String> = (0..n).map(|_| format!("{} : {}", t.choose(FNAMES), ds_type(t, depth + 1))).collect();
+            format!("{{ {} }}", fs.join(", "))
+        }
+        11 => {
+            let n = 1 + t.pick(3);
+            let cs: Vec<String> = (0..n)
+                .map(|_| {
+                    let k = t.pick(3);
+                    let args: Vec<String> = (0..k).map(|_| ds_atom(t, depth + 1)).collect();
+                    format!("| {} {}", t.choose(TNAMES), args.join(" "))
+                })
+                .collect();
+            cs.join(" ")
+        }
+        12 => format!("forall a . {}", ds_type(t, depth + 1)),
+        13 => format!("Array {}", ds_atom(t, depth + 1)),
+        14 => format!("({}, {})", ds_type(t, depth + 1), ds_type(t, depth + 1)),
+        15 => format!("[| x : {} | a |] {}", ds_atom(t, depth + 1), ds_atom(t, depth + 1)),
+        16 => format!("{{ {} : {} | a }}", t.choose(FNAMES), ds_type(t, depth + 1)),
+        _ => format!("[{}] -> {}", ds_type(t, depth + 1), ds_type(t, depth + 1)),
+    }
+}
+
+fn ds_atom(t: &mut Tape, depth: usize) -> String {
+    let x = ds_type(t, depth);
+    if x.contains(' ') && !x.starts_with('{') && !x.starts_with('(') {
+        format!("({})", x)
+    } else {
+        x
+    }
+}
+
+fn ds_lexeme(t: &mut Tape) -> String {
+    // number-like lexemes: groups of digits (sometimes letters, sometimes empty) joined by the
+    // characters that have a meaning inside or next to numeric literals
+    let groups = 1 + t.pick(4);
+    let mut s = String::new();
+    if t.chance(1, 6) {
+        s.push('-');
+    }
+    for g in 0..groups {
+        if g > 0 {
+            s.push_str(*t.choose(&["_", ".", "e", "E", "x", "b", "f", "-", "+", "_.", "._", "..", "'", "\""]));
+        }
+        if g > 0 && t.chance(1, 4) {
+            continue;
+        }
+        for _ in 0..1 + t.pick(3) {
+            s.push(*t.choose(&['0', '1', '9', '7', '0', '1', 'a', 'f', 'Z']));
+        }
+    }
+    if t.chance(1, 4) {
+        s.push_str(*t.choose(&["_", ".", "b", "e", "x"]));
+    }
+    s
+}
+
+fn ds_expr(t: &mut Tape, depth: usize) -> String {
+    let leaf = depth >= 3;
+    match t.pick(if leaf { 8 } else { 24 }) {
+        0 | 1 => t.choose(VNAMES).to_string(),
+        2 => t.range(0, 3).to_string(),
+        3 => "\"s\"".into(),
+        4 => t.choose(TNAMES).to_string(),
+        5 => "()".into(),
+        6 => ds_lexeme(t),
+        7 => format!("import! {}", t.choose(MODULES)),
+        8 | 9 => format!("{}.{}", t.choose(VNAMES), t.choose(FNAMES)),
+        10 => format!("{} {}", t.choose(VNAMES), ds_eatom(t, depth + 1)),
+        11 => format!("{} {}", t.choose(TNAMES), ds_eatom(t, depth + 1)),
+        12 => {
+            let n = t.pick(3);
+            let fs: Vec<String> = (0..n)
+                .map(|_| if t.chance(1, 4) { t.choose(FNAMES).to_string() } else { format!("{} = {}", t.choose(FNAMES), ds_expr(t, depth + 1)) })
+                .collect();
+            format!("{{ {} }}", fs.join(", "))
+        }
+        13 => format!("match {} with | {} -> {} | {} -> {}", ds_eatom(t, depth + 1), ds_pat(t), ds_eatom(t, depth + 1), ds_pat(t), ds_eatom(t, depth + 1)),
+        14 => format!("\\{} -> {}", t.choose(VNAMES), ds_expr(t, depth + 1)),
+        15 => format!("if {} then {} else {}", ds_eatom(t, depth + 1), ds_eatom(t, depth + 1), ds_eatom(t, depth + 1)),
+        16 => format!("[{}, {}]", ds_expr(t, depth + 1), ds_expr(t, depth + 1)),
+        17 => format!("({} : {})", ds_expr(t, depth + 1), ds_type(t, 1)),
+        18 => format!("{} {} {}", ds_eatom(t, depth + 1), t.choose(&["+", "==", "<>", "#Int+", "<|", "&&", ">>=", "."]), ds_eatom(t, depth + 1)),
+        19 => format!("({}, {})", ds_expr(t, depth + 1), ds_expr(t, depth + 1)),
+        20 => format!("{{ {} = {}, .. {} }}", t.choose(FNAMES), ds_expr(t, depth + 1), t.choose(VNAMES)),
+        21 => format!("let {} = {} in {}", t.choose(VNAMES), ds_expr(t, depth + 1), ds_expr(t, depth + 1)),
+        22 => format!("{}.{}.{}", t.choose(VNAMES), t.choose(FNAMES), t.choose(FNAMES)),
+        _ => format!("{} {} {}", t.choose(VNAMES), ds_eatom(t, depth + 1), ds_eatom(t, depth + 1)),
+    }
+}
+
+fn ds_eatom(t: &mut Tape, depth: usize) -> String {
+    let x = ds_expr(t, depth);
+    if x.contains(' ') && !x.starts_with('{') && !x.starts_with('(') && !x.starts_with('[') {
+        format!("({})", x)
+    } else {
+        x
+    }
+}
+
+fn ds_pat(t: &mut Tape) -> String {
+    match t.pick(8) {
+        0 => "_".into(),
+        1 => t.choose(VNAMES).to_string(),
+        2 => format!("{} {}", t.choose(TNAMES), t.choose(VNAMES)),
+        3 => t.choose(TNAMES).to_string(),
+        4 => format!("{{ {} }}", t.choose(FNAMES)),
+        5 => format!("{{ {} = {} }}", t.choose(FNAMES), t.choose(VNAMES)),
+        6 => format!("({}, {})", t.choose(VNAMES), t.choose(VNAMES)),
+        _ => t.range(0, 2).to_string(),
+    }
+}
+
+fn ds_attr(t: &mut Tape) -> String {
+    match t.pick(9) {
+        0 | 1 | 2 => format!("#[derive({})]\n", t.choose(DERIVES)),
+        3 => "#[implicit]\n".into(),
+        4 => "#[infix(left, 4)]\n".into(),
+        5 => "#[doc(hidden)]\n".into(),
+        6 => format!("#[{}\n", t.choose(&["foo", "derive(Eq", "derive(", ""])),
+        7 => format!("#[{}({})]\n", t.choose(&["derive", "infix", "foo"]), ds_lexeme(t)),
+        _ => "/// doc\n".into(),
+    }
+}
+
+fn gen_decl_soup(t: &mut Tape) -> String {
+    let n = 1 + t.pick(6);
+    let mut s = String::new();
+    for _ in 0..n {
+        if t.chance(1, 3) {
+            s.push_str(&ds_attr(t));
+        }
+        match t.pick(12) {
+            0 | 1 => s.push_str(&format!("type {} = {}\n", t.choose(TNAMES), ds_type(t, 0))),
+            2 => s.push_str(&format!("type {} a = {}\n", t.choose(TNAMES), ds_type(t, 0))),
+            3 => s.push_str(&format!("type {} {} {} = {}\n", t.choose(TNAMES), t.choose(&["a", "b"]), t.choose(&["a", "b"]), ds_type(t, 0))),
+            4 => {
+                // a group
+                s.push_str(&format!("rec\ntype {} = {}\ntype {} a = {}\nin\n", t.choose(TNAMES), ds_type(t, 0), t.choose(TNAMES), ds_type(t, 0)))
+            }
+            5 | 6 => s.push_str(&format!("let {} : {} = {}\n", t.choose(VNAMES), ds_type(t, 1), ds_expr(t, 1))),
+            7 => s.push_str(&format!("let {} {} : {} = {}\n", t.choose(VNAMES), t.choose(VNAMES), ds_type(t, 1), ds_expr(t, 1))),
+            8 => s.push_str(&format!("let {} = {}\n", ds_pat(t), ds_expr(t, 1))),
+            9 => s.push_str(&format!("rec let {} {} = {}\n", t.choose(VNAMES), t.choose(VNAMES), ds_expr(t, 1))),
+            10 => s.push_str(&format!("do {} = {}\n", t.choose(VNAMES), ds_expr(t, 1))),
+            _ => s.push_str(&format!("let {} ?{} : [{}] -> {} = {}\n", t.choose(VNAMES), t.choose(VNAMES), ds_type(t, 2), ds_type(t, 2), ds_expr(t, 1))),
+        }
+    }
+    if !t.chance(1, 8) {
+        s.push_str(&ds_expr(t, 0));
+    }
+    s
+}
+
 fn check_infile<E: std::fmt::Display>(inf: &InFile<E>, problems: &mut Vec<String>, nspans: &mut usize) {
     let errs: &gluon::base::error::Errors<Spanned<E, BytePos>> = inf.errors();
     for e in errs.iter() {
@@ -156,6 +339,9 @@ impl Property for C09 {
             worker_recycle: 1000,
             // "moderate nesting" is judged on an ordinary 8 MiB stack
             worker_stack: 8 << 20,
+            // a front-end call on <= 4 KiB that burns 40 CPU seconds or 3 GiB is a hang
+            hang_cpu_s: Some(40),
+            hang_rss_mb: 3072,
             ..Plan::default()
         }
     }
@@ -172,12 +358,13 @@ impl Property for C09 {
         out
     }
     fn gen(&self, t: &mut Tape, _tier: Tier) -> Value {
-        let mode = t.pick(10);
+        let mode = t.pick(14);
         let prelude = t.chance(1, 3);
         let (src, kind) = match mode {
             0 => (textmut::random_utf8(t, 200), "random_bytes".to_string()),
             1 => (textmut::random_chars(t, 120), "random_chars".to_string()),
             2 | 3 => (textmut::soup(t, 60), "token_soup".to_string()),
+            4 | 5 | 6 | 7 => (gen_decl_soup(t), "decl_soup".to_string()),
             _ => {
                 let win = if t.chance(1, 2) { 600 } else { MAX_BYTES };
                 let base = textmut::corpus_window(t, win);
@@ -240,10 +427,24 @@ impl Property for C09 {
         if src.contains("[|") {
             feats.push("effect_row".to_string());
         }
+        if src.contains("import! c09") {
+            feats.push("imports_own_module".to_string());
+        }
         let show = || format!("input ({} bytes, implicit prelude {}):\n{}", src.len(), case["prelude"], src);
         match obs {
             Obs::TimedOut => {
                 j.verdict = Verdict::Inconclusive("watchdog (30 s) hit".into());
+            }
+            Obs::Hung { cpu_s, rss_mb } => {
+                let text = format!("{} CPU seconds, {} MiB resident", cpu_s, rss_mb);
+                j.verdict = match kf.matches("C09", "hang", &text, &feats) {
+                    Some(id) => Verdict::Known(id),
+                    None => Verdict::Violation(format!(
+                        "the front end does not return: {} consumed on this input without an answer\n{}",
+                        text,
+                        show()
+                    )),
+                };
             }
             Obs::Panicked { msg, loc } => {
                 let text = format!("{} at {}", msg, loc);
@@ -292,7 +493,7 @@ impl Property for C09 {
     fn assumptions(&self) -> Vec<String> {
         vec![
             "moderate nesting = up to 64 levels of generated bracket/lambda/record wrapping, judged on an 8 MiB stack in a dev-profile build (opt-level 1, debug assertions on)".into(),
-            "a watchdog time-out (30 s for <= 4 KiB of input) is reported as inconclusive, not as a hang".into(),
+            "hang criterion: one front-end call on <= 4 KiB of input has consumed 40 seconds of its own CPU time (user + system of the worker process, independent of machine load; ordinary cases take 1-50 ms, the slowest corpus file about 1 s) or 3 GiB of resident memory without returning; a wall-clock time-out without that much CPU is inconclusive".into(),
             "spans are checked for parse, macro and typecheck errors (the error kinds that carry spans)".into(),
         ]
     }
